@@ -44,6 +44,12 @@ ASSUMPTIONS = [
 FLOORS = {"load_checked": 300, "fill_wellformed": 500, "retry_narrowed": 100,
           "loading_error_exact": 40, "returned_all_loaded": 150,
           "count_mode": 80, "percore_mode": 80}
+ANCHORS = [("rig.machine_control.machine_controller",
+            "MachineController.load_application",
+            {"count_matched": "unloaded = {}",
+             "per_core_check": "state = consts.AppState(",
+             "loading_error": "raise SpiNNakerLoadingError(unloaded)",
+             "start_signal": "self.send_signal(\"start\", app_id)"})]
 SHARDS = {"quick": 16, "thorough": 64}
 CLASSES = ["clean", "one_miss", "block_miss", "all_but_last", "always_miss",
            "prewait", "multi", "random"]
